@@ -393,6 +393,11 @@ def run(ctx):
     ctx.assume('std::atomic itself is the reference and is not analysed')
 
     kf, kt = fbs['KF'], fbs['KT']
+    rodr = ctx.rule('R-ODR', 'every inline / constexpr library function the atomic wrappers use is defined in the unit '
+                    'that uses it', minimum=2)
+    from rules import lib_core
+    for _fb in (kf, kt):
+        lib_core.check_undefined_inline(ctx, _fb, rodr)
     # ---------------- fiber bodies
     fiber_fns = [f for f in kf.fn.values() if f.clsq in FIBER_CLASSES]
     if not fiber_fns:
